@@ -219,6 +219,81 @@ func enumPaths(start *ssa.BasicBlock, cfg walkCfg) (paths []*Path, truncated boo
 	return paths, truncated
 }
 
+// forwardLocalLoad: v is a load of a field of a local struct (or of a local variable cell) that is written exactly once
+// and whose address goes nowhere else: the value stored. (`present := parts{vector: a && b}; if present.vector` — the
+// compiler keeps such structs in memory, the decision is still the one taken when the field was computed.)
+func forwardLocalLoad(v ssa.Value) ssa.Value {
+	copies := 0
+	for i := 0; i < 4; i++ {
+		ld, ok := v.(*ssa.UnOp)
+		if !ok || ld.Op != token.MUL {
+			return v
+		}
+		var root *ssa.Alloc
+		field := -1
+		switch a := ld.X.(type) {
+		case *ssa.FieldAddr:
+			root, _ = a.X.(*ssa.Alloc)
+			field = a.Field
+		case *ssa.Alloc:
+			root = a
+		}
+		if root == nil || root.Referrers() == nil {
+			return v
+		}
+		var stored ssa.Value
+		n := 0
+	again:
+		for _, ref := range *root.Referrers() {
+			switch x := ref.(type) {
+			case *ssa.FieldAddr:
+				for _, r2 := range *x.Referrers() {
+					switch y := r2.(type) {
+					case *ssa.Store:
+						if y.Addr != ssa.Value(x) {
+							return v // the field's address is stored somewhere
+						}
+						if x.Field == field {
+							stored = y.Val
+							n++
+						}
+					case *ssa.UnOp:
+					case *ssa.DebugRef:
+					default:
+						return v
+					}
+				}
+			case *ssa.Store:
+				if x.Addr != ssa.Value(root) {
+					return v
+				}
+				if field < 0 {
+					stored = x.Val
+					n++
+				} else {
+					// the whole struct copied from another local (a composite literal built in a temporary): look there
+					if src, ok := x.Val.(*ssa.UnOp); ok && src.Op == token.MUL {
+						if a2, ok := src.X.(*ssa.Alloc); ok && a2 != root && a2.Referrers() != nil && copies < 3 {
+							copies++
+							root, stored, n = a2, nil, 0
+							goto again
+						}
+					}
+					return v
+				}
+			case *ssa.UnOp, *ssa.DebugRef:
+			default:
+				return v // escapes (call argument, closure binding, …)
+			}
+		}
+		if n != 1 || stored == nil {
+			return v
+		}
+		v = stored
+	}
+	return v
+}
+
 func decideOnPath(cond ssa.Value, p *Path) (bool, bool) {
 	neg := false
 	for {
@@ -228,6 +303,10 @@ func decideOnPath(cond ssa.Value, p *Path) (bool, bool) {
 		}
 		neg = !neg
 		cond = u.X
+	}
+	if f := forwardLocalLoad(cond); f != cond {
+		b, ok := decideOnPath(f, p)
+		return b != neg, ok
 	}
 	v := cond
 	if _, isPhi := v.(*ssa.Phi); isPhi {
